@@ -10,7 +10,7 @@
 
 static gslot *s_zs, *s_out, *s_st, *s_in, *s_extra, *s_name, *s_comment, *s_hdr, *s_ic[4];
 static uint8_t *ref, *extra_src; static char *name_src, *comment_src;
-static long st_writes, st_reads, st_resumes, st_small, st_splits, st_arbitrary, st_ret[16];
+static long st_writes, st_reads, st_resumes, st_small, st_splits, st_arbitrary, st_ret[16], st_verdict_ok, st_verdict_rej, st_via_inflate;
 
 static void fault_key(const char *what) { v_describe_fault(); char key[200]; snprintf(key, sizeof key, "fault:%s:%s:%s", v_fault_sym(), v_fault_slot(), v_fault.sig == SIGALRM ? "hang" : v_fault.sig == SIGABRT ? "abort" : "access"); v_viol(key, "%s: %s", what, v_fault_txt); }
 static void gen_fields(vrng *r, refgz_t *h)
@@ -179,14 +179,14 @@ static void arbitrary_case(long idx, vrng *r)
 	size_t ecap = vrn(r, 300), ncap = vrn(r, 100), ccap = vrn(r, 100);
 	uint8_t *eb = gs_place(s_extra, ecap, G_END, 0); char *nb = (char *) gs_place(s_name, ncap, G_END, 0), *cb = (char *) gs_place(s_comment, ccap, G_END, 0);
 	v_setcase(idx, "arbitrary bytes as %s header, %zu bytes, buffers %zu/%zu/%zu", gz ? "gzip" : "zlib", n, ecap, ncap, ccap);
-	size_t given = 0; int calls = 0, irot = 0, idle = 0; gslot *icur = NULL;
+	size_t given = 0; int calls = 0, irot = 0, idle = 0, last_rc = 99; gslot *icur = NULL;
 	if (V_TRY(30)) {
 		isal_inflate_init(st); isal_gzip_header_init(gh); isal_zlib_header_init(&zh); gh->extra = eb; gh->extra_buf_len = (uint32_t) ecap; gh->name = nb; gh->name_buf_len = (uint32_t) ncap; gh->comment = cb; gh->comment_buf_len = (uint32_t) ccap; st->avail_in = 0;
 		for (;;) {
 			if (++calls > 5000) { V_END; v_viol("reader:no-termination:arbitrary", "no verdict after %d calls", calls); goto out; }
 			if (st->avail_in == 0 && given < n) { size_t c = 1 + vrn(r, 50); if (c > n - given) c = n - given; if (icur) { gs_reset(icur); gs_release(icur); } icur = s_ic[irot++ % 4]; if (icur->released) gs_reacquire(icur); uint8_t *p = gs_place(icur, c, G_END, 0); memcpy(p, ref + given, c); st->next_in = p; st->avail_in = (uint32_t) c; given += c; }
 			uint32_t ain = st->avail_in; int sb = st->block_state;
-			int rc = gz ? isal_read_gzip_header(st, gh) : isal_read_zlib_header(st, &zh); count_ret(rc); st_reads++;
+			int rc = gz ? isal_read_gzip_header(st, gh) : isal_read_zlib_header(st, &zh); count_ret(rc); st_reads++; last_rc = rc;
 			if (st->avail_in > ain) { V_END; v_viol("reader:avail_in-grew", "avail_in %u -> %u", ain, st->avail_in); goto out; }
 			if (rc == ISAL_DECOMP_OK || rc < 0) { if (rc < 0 && rc != ISAL_INVALID_WRAPPER && rc != ISAL_UNSUPPORTED_METHOD && rc != ISAL_INCORRECT_CHECKSUM) { V_END; v_viol("reader:undocumented-status", "returned %d", rc); goto out; } break; }
 			if (rc == ISAL_END_INPUT) { if (given >= n && st->avail_in == 0) break; if (st->avail_in == ain && st->block_state == sb && ain) { if (++idle > 2) { V_END; v_viol("reader:no-progress", "ISAL_END_INPUT with %u bytes available and nothing consumed", ain); goto out; } } else idle = 0; continue; }
@@ -196,11 +196,59 @@ static void arbitrary_case(long idx, vrng *r)
 		V_END;
 	} else { fault_key(gz ? "isal_read_gzip_header(arbitrary)" : "isal_read_zlib_header(arbitrary)"); goto out; }
 	st_arbitrary++;
+	{ /* the verdict itself, against the independent header parser (reserved FLG bits and CINFO > 7 are not judged) */
+	  static rwrap_t W; int e = rwrap_header(&W, gz ? RW_GZIP : RW_ZLIB, ref, n); char key[120];
+	  size_t pos = given - st->avail_in - (size_t) (st->read_in_length > 0 ? st->read_in_length / 8 : 0);
+	  if (last_rc == ISAL_DECOMP_OK) {
+		if (e == RWE_MAGIC || e == RWE_METHOD || e == RWE_HCRC || e == RWE_FCHECK || e == RWE_SHORT) { snprintf(key, sizeof key, "reader:accepts-invalid-header:%s:%s", gz ? "gzip" : "zlib", e == RWE_MAGIC ? "magic" : e == RWE_METHOD ? "method" : e == RWE_HCRC ? "hcrc" : e == RWE_FCHECK ? "fcheck" : "truncated"); v_viol(key, "ISAL_DECOMP_OK for bytes the independent parser rejects (%d): %02x %02x %02x %02x", e, ref[0], ref[1], n > 2 ? ref[2] : 0, n > 3 ? ref[3] : 0); }
+		else if (e == RWE_OK && pos != W.hdr_len) { snprintf(key, sizeof key, "reader:end-position:%s", gz ? "gzip" : "zlib"); v_viol(key, "reader stopped at %zu, the header is %zu bytes long", pos, W.hdr_len); }
+		st_verdict_ok++;
+	  } else if (last_rc == ISAL_INVALID_WRAPPER || last_rc == ISAL_UNSUPPORTED_METHOD || last_rc == ISAL_INCORRECT_CHECKSUM) {
+		if (e == RWE_OK) { snprintf(key, sizeof key, "reader:rejects-valid-header:%s:%d", gz ? "gzip" : "zlib", last_rc); v_viol(key, "returned %d for a header the independent parser accepts", last_rc); }
+		st_verdict_rej++;
+	  } else if (last_rc == ISAL_END_INPUT && e == RWE_OK && given >= n && !W.fdict) { snprintf(key, sizeof key, "reader:never-finishes:%s", gz ? "gzip" : "zlib"); v_viol(key, "ISAL_END_INPUT although a complete valid header (%zu bytes) was supplied", W.hdr_len); }
+	}
 	for (gslot **g = (gslot *[]){ s_extra, s_name, s_comment, NULL }; *g; g++) { long d = gs_check(*g, 4096); if (d != GS_OK) { char key[100]; snprintf(key, sizeof key, "oob-write:%s-buffer", (*g)->name); v_viol(key, "canary damaged at %+ld on arbitrary input", d); gs_repaint_all(*g); } }
 	v_distinct(v_hash64(ref, n, 11 + gz));
 out:
 	for (int i = 0; i < 4; i++) { if (s_ic[i]->released) gs_reacquire(s_ic[i]); gs_reset(s_ic[i]); }
 	gs_reset(s_st); gs_reset(s_hdr); gs_reset(s_extra); gs_reset(s_name); gs_reset(s_comment);
+}
+/* the same headers in front of an (empty) deflate body, consumed by isal_inflate(): the decoder parses the wrapper through the same readers and
+ * has to carry their resume state from call to call - every split point of the header, byte-by-byte delivery, fresh mapping per chunk */
+static void inflate_hdr_case(long idx, vrng *r)
+{
+	int gz = vrn(r, 4) != 0; size_t n;
+	if (gz) { refgz_t h; gen_fields(r, &h); if (h.extra_len > 600) h.extra_len = vrn(r, 600); if (h.name && strlen(h.name) > 300) ((char *) h.name)[vrn(r, 300)] = 0; if (h.comment && strlen(h.comment) > 300) ((char *) h.comment)[vrn(r, 300)] = 0; n = refhdr_gzip(ref, &h); }
+	else n = refhdr_zlib(ref, vrn(r, 8), vrn(r, 4), 0, 0);
+	size_t hl = n; ref[n++] = 0x03; ref[n++] = 0x00;                                     /* final fixed block holding only end-of-block */
+	if (gz) { memset(ref + n, 0, 8); n += 8; } else { ref[n++] = 0; ref[n++] = 0; ref[n++] = 0; ref[n++] = 1; }   /* CRC-32 0 / ISIZE 0, Adler-32 1 */
+	size_t tail = vrn(r, 3); for (size_t i = 0; i < tail; i++) ref[n + i] = (uint8_t) vr32(r);
+	struct inflate_state *st = (struct inflate_state *) gs_place(s_st, sizeof *st, G_START, 0); uint8_t *out = gs_place(s_out, 64, G_END, 0);
+	long nsplit = hl <= 1400 ? (long) hl + 2 : 40;
+	for (long k = -1; k < nsplit; k++) {   /* k = -1: one byte per call; otherwise two pieces cut at k (or at a random point for long headers) */
+		size_t cut = k < 0 ? 0 : hl <= 1400 ? (size_t) k : vrn(r, (uint32_t) hl + 1);
+		v_setcase(idx, "%s header of %zu bytes + empty deflate body + trailer through isal_inflate, %s %zu", gz ? "gzip" : "zlib", hl, k < 0 ? "one byte per call" : "first call delivers", cut);
+		size_t given = 0; int calls = 0, irot = 0, rc = 0; gslot *icur = NULL;
+		if (V_TRY(30)) {
+			isal_inflate_init(st); st->crc_flag = gz ? ISAL_GZIP : ISAL_ZLIB; st->next_out = out; st->avail_out = 64; st->avail_in = 0;
+			while (st->block_state != ISAL_BLOCK_FINISH && ++calls < 5000) {
+				if (st->avail_in == 0) { if (given >= n + tail) break; size_t c = k < 0 ? 1 : given == 0 ? (cut ? cut : 1) : n + tail - given; if (icur) { gs_reset(icur); gs_release(icur); } icur = s_ic[irot++ % 4]; if (icur->released) gs_reacquire(icur); uint8_t *p = gs_place(icur, c, G_END, 0); memcpy(p, ref + given, c); st->next_in = p; st->avail_in = (uint32_t) c; given += c; }
+				rc = isal_inflate(st); if (rc < 0) break;
+			}
+			V_END;
+		} else { fault_key("isal_inflate(header split)"); goto out; }
+		st_via_inflate++;
+		size_t pos = given - st->avail_in - (size_t) (st->read_in_length > 0 ? st->read_in_length / 8 : 0);
+		if (rc < 0) { char key[100]; snprintf(key, sizeof key, "inflate-header-split:rejects-valid:%s:%d", gz ? "gzip" : "zlib", rc); v_viol(key, "isal_inflate returned %d", rc); goto out; }
+		if (st->block_state != ISAL_BLOCK_FINISH) { char key[100]; snprintf(key, sizeof key, "inflate-header-split:never-finishes:%s", gz ? "gzip" : "zlib"); v_viol(key, "all %zu bytes supplied, block_state %d", n + tail, st->block_state); goto out; }
+		if (st->total_out != 0 || pos != n) { char key[100]; snprintf(key, sizeof key, "inflate-header-split:end-position:%s", gz ? "gzip" : "zlib"); v_viol(key, "finished at input position %zu (stream is %zu bytes), total_out %u", pos, n, st->total_out); goto out; }
+		for (int i = 0; i < 4; i++) { if (s_ic[i]->released) gs_reacquire(s_ic[i]); gs_reset(s_ic[i]); }
+	}
+	v_distinct(v_hash64(ref, hl, 21 + gz));
+out:
+	for (int i = 0; i < 4; i++) { if (s_ic[i]->released) gs_reacquire(s_ic[i]); gs_reset(s_ic[i]); }
+	gs_reset(s_st); gs_reset(s_out);
 }
 int main(int argc, char **argv)
 {
@@ -211,12 +259,12 @@ int main(int argc, char **argv)
 	ref = malloc(100000); extra_src = malloc(70000); name_src = malloc(8192); comment_src = malloc(8192);
 	long n = (long) ((vopt.thorough ? 4000000 : 60000) * vopt.scale);
 	for (long idx = 0; idx < n; idx++) { if (!v_mine(idx)) continue; vrng r; vr_seed(&r, vopt.seed, 80, idx);
-		switch (idx % 8) { case 0: case 1: gzip_write_case(idx, &r); break; case 2: zlib_write_case(idx, &r); break; case 3: case 4: case 5: gzip_read_case(idx, &r); break; case 6: zlib_read_case(idx, &r); break; default: arbitrary_case(idx, &r); }
+		switch (idx % 8) { case 0: case 1: gzip_write_case(idx, &r); break; case 2: zlib_write_case(idx, &r); break; case 3: case 4: case 5: gzip_read_case(idx, &r); break; case 6: zlib_read_case(idx, &r); break; default: if ((idx / 8) % 3 == 0) inflate_hdr_case(idx, &r); else arbitrary_case(idx, &r); }
 		if (v_nviol > v_viol_cap) break; }
 	/* systematic: every split point of a header that uses every optional field */
 	for (int k = 0; k < (vopt.thorough ? 40 : 6); k++) { long idx = 900000000l + k; if (!v_mine(idx)) continue; /* covered through gzip_read_case mode 1 with explicit splits below */
 		vrng r; vr_seed(&r, vopt.seed, 81, idx); (void) r; }
-	v_stat("evaluations", st_writes + st_reads); v_stat("header_writes", st_writes); v_stat("too_small_output_cases", st_small); v_stat("reader_calls", st_reads); v_stat("overflow_resumes", st_resumes); v_stat("chunked_reads", st_splits); v_stat("arbitrary_inputs", st_arbitrary);
+	v_stat("evaluations", st_writes + st_reads); v_stat("header_split_histories_through_isal_inflate", st_via_inflate); v_stat("arbitrary_headers_accepted_and_cross_checked", st_verdict_ok); v_stat("arbitrary_headers_rejected_and_cross_checked", st_verdict_rej); v_stat("header_writes", st_writes); v_stat("too_small_output_cases", st_small); v_stat("reader_calls", st_reads); v_stat("overflow_resumes", st_resumes); v_stat("chunked_reads", st_splits); v_stat("arbitrary_inputs", st_arbitrary);
 	for (int c = 0; c < 16; c++) if (st_ret[c]) { char e[16]; snprintf(e, sizeof e, "%d", c - 8); v_count("reader_status_codes", e, st_ret[c]); }
 	return v_finish();
 }
